@@ -49,7 +49,7 @@ def _phase(name):
 
 MANIFEST = dict(
     category="proof",
-    text="Lean 4, 27 theorems, none _partial, over Model/Scope.lean and three regenerated tables. "
+    text="Lean 4, 30 theorems, none _partial, over Model/Scope.lean and three regenerated tables. "
          "(1) Lexical scoping, for all trees, positions, keys and values: lookup = nearest enclosing definition; the heap model of "
          "util.Scope (with clone/reparent/cycles) agrees with the chain model; writing k:v on a container (namespace, class, block, at any "
          "path) and writing it on every contained function without a nearer definition give every function the same lookups while "
@@ -61,6 +61,9 @@ MANIFEST = dict(
          "(2) A block without options is transparent at any position, and a block appends to its parent's list in order. "
          "(3) Parser.attribute on +k, +k(balanced tokens), +k=scalar equals attrs.update(entries) for every attribute list and every "
          "split between declaration text and attrs/fattrs; the later entry wins. "
+         "A format field written directly under format: equals the same value given through its template option, post-processing "
+         "(lower-casing of F_module_name) included, for the library order and the namespace order of default_format "
+         "(library_format_eq_template, namespace_format_vs_template; the pre-fix namespace order is shown to violate it). "
          "(4) --option/--language: coercion (true/True/false/False, digit strings, text), the merge equals the same fields written in "
          "the YAML file (with or without an options: entry), crash sites (no '=', empty options:). "
          "Table theorems (decide over data regenerated from the working tree on every run): create_wrapper assigns every field "
@@ -69,7 +72,8 @@ MANIFEST = dict(
          "attribute and creates its lists/dict per instance; in the table of every syntactic option/format read of shroud/*.py no "
          "function-scoped option (and no explicitly read function-scoped format field) is read through a library-level owner expression "
          "(allow list empty), and no value read from a function-scoped option/format field is stored in an attribute of a pass or wrapper "
-         "object (cached across declarations). "
+         "object (cached across declarations), and inside a loop over .namespaces / .classes every read of a namespace- / class-scoped "
+         "option is made on the loop variable's own scope (member_options_read_from_member). "
          "Ties on every run through the compiled driver drv_scope: util.Scope operation programs incl. the real ClassNode.clone, real node construction "
          "(create_library_from_dictionary, blocks nested in blocks/classes/namespaces) vs build/views, Parser.attribute on real token "
          "streams, the real main_with_args merge; node construction must hand the user's description back unchanged (the model's "
@@ -77,7 +81,9 @@ MANIFEST = dict(
          "Implementation-only oracle: byte comparison of complete output directories for pairs of equivalent descriptions (option/format "
          "and wrap_* on container vs members at every placement (libraries always hold a class template with a block and a class with cpp_if), locality (a setting on one namespace leaves the sibling's files as in "
          "the base run and gives its own files as with the setting on the library; integer options included), one mapping shared through "
-         "YAML aliases vs copies, sibling, empty block, every accepted attribute name inline vs "
+         "YAML aliases vs copies, every eval_template field (harvested from ast.py) written under format: vs through its template option "
+         "on library/namespace/class nodes, namespace-/class-scoped options on the library or a namespace vs on every namespace/class "
+         "inside, sibling, empty block, every accepted attribute name inline vs "
          "attrs/fattrs on functions/methods/constructors/arguments, generated option values YAML vs real command line incl. the case where the command line overrides other values and "
          "the other language written in the file, --path with stale "
          "look-alike files, create_wrapper once and in sequences vs fresh command-line runs).",
@@ -96,7 +102,8 @@ MANIFEST = dict(
          "same rule as eval_template), because an inherited suffix would name all overloads alike; it is replayed from corpus/c14.txt "
          "and reported as KNOWN-FINDING. Five defects found by this check were repaired in /repo (create_wrapper fields, block in a "
          "class, constructors in a block, attrs with fortran_generic, block options in a class template, cpp_if of a class for functions "
-         "in a block).",
+         "in a block, lower-casing of a namespace's F_module_name given under format:). A failure of the code under test inside a tie or "
+         "oracle is recorded as a result or a broken tie; it does not end the check with exit 2.",
     technique="Lean 4 proof by induction over chains/trees/token lists + regenerated tables (decide) + differential correspondence through a "
               "compiled driver + run-time read tracing + metamorphic byte comparison of outputs",
 )
@@ -2286,6 +2293,10 @@ def run(ctx):
         "command-line option values are text coerced to bool (true/True/false/False), int (ASCII digit strings) or str: equivalence "
         "with a YAML field holds where YAML resolves the scalar to that same value (not for yes/on/1.5/negative numbers)",
         "attribute pairs rejected by Shroud are required to be rejected on both sides with the same exception type only",
+        "format-vs-template is checked where the field is derived on that node (struct-only fields are skipped on a class) and on nodes "
+        "without nested containers of the same kind (a template option is inherited by nested namespaces/classes, a format field is "
+        "re-derived there)",
+        "namespace-/class-scoped option sets come from corpus/c14.txt (full trace); an option leaving them is reported",
         "wrap_L on a container vs on its functions is compared only for containers holding at least one function the L wrapper "
         "implements (Shroud clears a function's own flag for unsupported argument kinds, e.g. std::vector in Lua; a container left with "
         "nothing wrappable still writes its empty module when the flag is written on it)",
